@@ -255,6 +255,27 @@ func structuralEdits(b *gen.Built, res *ref.XZResult) []edit {
 			}
 		}
 	}
+	// block header declared SHORTER than its fields need: the first L-4 bytes
+	// of the header kept, size byte lowered to match, CRC32 re-computed - the
+	// fields (size fields, filter id, property size, properties) run into the
+	// end of the header; with the rest of the stream behind it, and as the
+	// last thing in the file
+	{
+		szs, crcs := lay.Find("bh_size"), lay.Find("bh_crc")
+		for i := 0; i < len(szs) && i < len(crcs) && i < 2; i++ {
+			hb := b.Stream[szs[i].Off:crcs[i].Off]
+			for L := 8; L < len(hb)+4 && L <= 24; L += 4 {
+				d := append([]byte{}, b.Stream[:szs[i].Off]...)
+				h := append([]byte{}, hb[:L-4]...)
+				h[0] = byte(L/4 - 1)
+				h = binary.LittleEndian.AppendUint32(h, crc32.ChecksumIEEE(h))
+				d = append(d, h...)
+				add("header_shortened_then_eof", "bh_size", append([]byte{}, d...))
+				d = append(d, b.Stream[crcs[i].Off+4:]...)
+				add("header_shortened", "bh_size", d)
+			}
+		}
+	}
 	// index: record count, records, padding
 	cnt := lay.Find("idx_count")[0]
 	for _, dlt := range []int{-1, 1} {
@@ -618,7 +639,7 @@ func checkC04(c caseC04, rec *ev.Rec) *ev.Failure {
 
 func TestC04(t *testing.T) {
 	rec := ev.New("C04", "fault_enumeration")
-	rec.Rule = "rapid draws valid single-stream .xz files (library / reference generator with size fields, extra padding, empty blocks / liblzma; all four check types; <= ~2 KiB); per file: every single-bit flip, insertion of {00,FF,21,drawn} and deletion at every offset, substitution by {00,FF,80,7F} at every offset, 10-40 drawn bursts <= 32 bits, structural edits with re-sealed CRC32 (size fields altered / added with wrong value, index records, record count, backward size, header vs footer flags, non-zero header/block/index padding, reserved bits, unsupported check / filter ids, filter count, property size, dictionary code, wrong check value), generator-built streams with one wrong metadata value of any size (block header sizes, record count, index records, backward size; 0, +-1, +4, +128, 2^31, 2^32, 2^63-1) and correct CRCs, streams whose index consistently lists fewer or more records than there are blocks, and sweeps of ALL 256 values of each stream-flags byte (header only / footer only / both) and of every block-flags byte, re-sealed; oracle 1 (check-carrying files, any modification): never err == nil with content != original; oracle 2 (structural edits, also check-less): err != nil; evaluations = damaged files decoded; non-trivial = modification changes the file; distinct = hash(fault kind, field, bytes)"
+	rec.Rule = "rapid draws valid single-stream .xz files (library / reference generator with size fields, extra padding, empty blocks / liblzma; all four check types; <= ~2 KiB); per file: every single-bit flip, insertion of {00,FF,21,drawn} and deletion at every offset, substitution by {00,FF,80,7F} at every offset, 10-40 drawn bursts <= 32 bits, structural edits with re-sealed CRC32 (size fields altered / added with wrong value, index records, record count, backward size, header vs footer flags, block headers shortened below what their fields need, non-zero header/block/index padding, reserved bits, unsupported check / filter ids, filter count, property size, dictionary code, wrong check value), generator-built streams with one wrong metadata value of any size (block header sizes, record count, index records, backward size; 0, +-1, +4, +128, 2^31, 2^32, 2^63-1) and correct CRCs, streams whose index consistently lists fewer or more records than there are blocks, and sweeps of ALL 256 values of each stream-flags byte (header only / footer only / both) and of every block-flags byte, re-sealed; oracle 1 (check-carrying files, any modification): never err == nil with content != original; oracle 2 (structural edits, also check-less): err != nil; evaluations = damaged files decoded; non-trivial = modification changes the file; distinct = hash(fault kind, field, bytes)"
 	rec.Assumptions = []string{"a payload modification that survives the range coder and yields a CRC32/CRC64/SHA-256 collision is ignored (probability <= 2^-32 per case)", "declared dictionaries <= 8 KiB so that each of the ~50 000 readers per file is cheap"}
 	drive(t, rec, drawC04, checkC04)
 }
